@@ -100,3 +100,185 @@ package motion
 //@   modifies fl.oldest, fl.mark
 //@   ghost_exit fl.mark = fl.n()
 //@   ensures [C19] fl.inv() && fl.mark == fl.n() && result == fl.frames[fl.currentIndex]
+
+// ---------------------------------------------------------------------------
+// L3: MotionProcessor (C01 C02 C03 C04 C12 C13 C17)
+//
+// Ghost: run = number of consecutive motion frames since the last motion-less
+// frame or stop (the statement's "run of motion"); lastMotionFW = value of
+// framesWritten when motion was last seen in the open recording (0 at the
+// trigger). The sinks' ghost automata live in package recorder.
+
+//@ ghost field MotionProcessor.run int
+//@ ghost field MotionProcessor.lastMotionFW int
+
+//@ iface (l RecordingListener) MotionDetected
+//@   mode trusted
+//@ iface (l RecordingListener) RecordingStarted
+//@   mode trusted
+//@ iface (l RecordingListener) RecordingEnded
+//@   mode trusted
+
+//@ func isNullOrNullPointer(i)
+//@   mode trusted
+//@   ensures result == (isnil(i) || ref(i) == 0)
+
+//@ functype FrameParser(raw, out, edge) (err)
+//@   mode trusted
+//@   requires out != nil
+//@   modifies pix(out), out.Status
+
+//@ func min
+//@   ensures result == (a < b ? a : b)
+
+//@ pred (mp *MotionProcessor) wired() :=
+//@      mp.frameLoop != nil && heapobj(mp.frameLoop) && mp.motionDetector != nil && heapobj(mp.motionDetector)
+//@   && mp.log != nil && mp.log.nowFunc != nil && mp.log.inv()
+//@   && !isnil(mp.recorder) && ref(mp.recorder) != 0
+//@   && ref(mp.recorder) != ref(mp.constantRecorder) && ref(mp.recorder) != ref(mp.snapshotRecorder)
+//@   && (mp.constantRecording ==> !isnil(mp.constantRecorder) && ref(mp.constantRecorder) != 0 && ref(mp.constantRecorder) != ref(mp.snapshotRecorder))
+//@   && !isnil(mp.snapshotRecorder) && ref(mp.snapshotRecorder) != 0
+
+//@ pred (mp *MotionProcessor) PInvM() := mp.recState() && mp.recRun()
+//@
+//@ pred (mp *MotionProcessor) recState() := mp.recSeq() && mp.recLen()
+//@
+//@ pred (mp *MotionProcessor) recSeq() :=
+//@      mp.frameLoop.inv() && mp.isRecording == mp.recorder.open
+//@   && (!mp.isRecording ==> mp.frameLoop.mark == mp.recorder.next)
+//@   && (mp.isRecording ==> mp.recorder.next == mp.frameLoop.n())
+//@
+//@ pred (mp *MotionProcessor) recLen() :=
+//@      0 <= mp.minFrames && mp.minFrames <= mp.maxFrames
+//@   && (!mp.isRecording ==> mp.framesWritten == 0 && mp.writeUntil == 0)
+//@   && (mp.isRecording ==> 1 <= mp.framesWritten && mp.framesWritten < mp.writeUntil
+//@         && mp.writeUntil == min(mp.lastMotionFW + mp.minFrames, mp.maxFrames)
+//@         && 0 <= mp.lastMotionFW && mp.lastMotionFW < mp.framesWritten)
+//@
+//@ pred (mp *MotionProcessor) recRun() := mp.triggered == mp.run && mp.run >= 0
+
+//@ pred (mp *MotionProcessor) PInvC() :=
+//@   mp.constantRecording ==> (mp.constantRecorder.open == (mp.crFrames > 0)) && mp.constantRecorder.inFile == mp.crFrames && 0 <= mp.crFrames && mp.crFrames <= mp.maxFrames
+
+//@ pred (mp *MotionProcessor) PInvS() :=
+//@   mp.SnapshotRecording == mp.snapshotRecorder.open && 0 <= mp.snapshotFrames
+//@
+//@ pred (mp *MotionProcessor) snapTidy() :=
+//@      (!mp.SnapshotRecording ==> mp.snapshotFrames == 0)
+//@   && (mp.SnapshotRecording ==> mp.snapshotRecorder.inFile == mp.snapshotFrames && 1 <= mp.snapshotFrames && mp.snapshotFrames <= 20)
+
+//@ pred (mp *MotionProcessor) PInv() := mp.wired() && mp.PInvM() && mp.PInvC() && mp.PInvS()
+
+//@ func (d *motionDetector) Detect(frame)
+//@   mode trusted
+//@   requires d != nil && frame != nil
+//@   modifies d.*, any(uint16), any(float32), any(cptvframe.Telemetry)
+
+//@ func (d *motionDetector) Reset(camera)
+//@   mode trusted
+//@   requires d != nil
+//@   modifies d.*
+
+//@ func (mp *MotionProcessor) canStartWriting
+//@   requires mp != nil && mp.wired()
+//@   ensures [C04] (result == nil) == (mp.window.activeNow && mp.recorder.canRec)
+
+//@ func (mp *MotionProcessor) recordPreTriggerFrames
+//@   requires mp != nil && mp.wired() && mp.frameLoop.inv()
+//@   requires mp.recorder.open && mp.recorder.inFile == 0 && !mp.recorder.wfault && mp.recorder.next <= mp.frameLoop.hs()
+//@   modifies elems(mp.frameLoop.orderedFrames), mp.recorder.next, mp.recorder.first, mp.recorder.inFile, mp.recorder.writes, mp.recorder.wfault
+//@   call WriteFrame#1 ghost seq = mp.frameLoop.hs() + ii
+//@   call WriteFrame#1 assert [C01] $1 == mp.frameLoop.frames[mp.frameLoop.slot(mp.frameLoop.hs() + ii)] && mp.frameLoop.seq(mp.frameLoop.slot(mp.frameLoop.hs() + ii)) == seq
+//@   call WriteFrame#1 assert [C01] seq == mp.recorder.next || (mp.recorder.inFile == 0 && seq >= mp.recorder.next)
+//@   loop 1 invariant 0 <= ii && ii <= len(frames) - 1 && mp.recorder.open && !mp.recorder.wfault
+//@   loop 1 invariant mp.recorder.next == (ii == 0 ? old(mp.recorder.next) : mp.frameLoop.hs() + ii) && mp.recorder.inFile == ii
+//@   loop 1 invariant (ii > 0 ==> mp.recorder.first == mp.frameLoop.hs()) && mp.recorder.writes == old(mp.recorder.writes) + ii
+//@   ensures mp.recorder.open && mp.recorder.next >= old(mp.recorder.next) && mp.recorder.next <= mp.frameLoop.n()
+//@   ensures (result == nil) == !mp.recorder.wfault
+//@   ensures [C01,C02] result == nil ==> mp.recorder.inFile == mp.frameLoop.n() - mp.frameLoop.hs() && (mp.recorder.inFile == 0 ==> mp.recorder.next == old(mp.recorder.next))
+//@   ensures [C01,C02] result == nil ==> (mp.recorder.inFile > 0 ==> mp.recorder.first == mp.frameLoop.hs() && mp.recorder.next == mp.frameLoop.n())
+//@   ensures [C01] mp.recorder.writes == old(mp.recorder.writes) + mp.recorder.inFile
+
+//@ func (mp *MotionProcessor) startRecording
+//@   requires mp != nil && mp.wired() && mp.recState() && !mp.isRecording
+//@   modifies mp.isRecording, elems(mp.frameLoop.orderedFrames)
+//@   modifies mp.recorder.open, mp.recorder.inFile, mp.recorder.wfault, mp.recorder.starts, mp.recorder.startOK, mp.recorder.bg, mp.recorder.thresh
+//@   modifies mp.recorder.next, mp.recorder.first, mp.recorder.writes
+//@   ensures [C04] mp.recorder.starts == old(mp.recorder.starts) + (old(mp.recorder.startOK) ? 1 : 0)
+//@   ensures mp.isRecording == old(mp.recorder.startOK) && mp.isRecording == mp.recorder.open
+//@   ensures (result == nil) == (old(mp.recorder.startOK) && !mp.recorder.wfault)
+//@   ensures !old(mp.recorder.startOK) ==> mp.recorder.writes == old(mp.recorder.writes) && mp.recorder.next == old(mp.recorder.next) && mp.recorder.wfault == old(mp.recorder.wfault) && mp.recorder.inFile == old(mp.recorder.inFile) && mp.recorder.first == old(mp.recorder.first)
+//@   ensures old(mp.recorder.startOK) ==> mp.recorder.next >= old(mp.recorder.next) && mp.recorder.next <= mp.frameLoop.n()
+//@   ensures [C01,C02] result == nil ==> mp.recorder.inFile == mp.frameLoop.n() - mp.frameLoop.hs() && (mp.recorder.inFile == 0 ==> mp.recorder.next == old(mp.recorder.next))
+//@   ensures [C01,C02] result == nil ==> (mp.recorder.inFile > 0 ==> mp.recorder.first == mp.frameLoop.hs() && mp.recorder.next == mp.frameLoop.n())
+//@   ensures [C15] old(mp.recorder.startOK) ==> mp.recorder.bg == ref(mp.motionDetector.background) && mp.recorder.thresh == mp.motionDetector.tempThresh
+//@   ensures [C01] mp.recorder.writes == old(mp.recorder.writes) + (old(mp.recorder.startOK) ? mp.recorder.inFile : 0)
+
+//@ func (mp *MotionProcessor) stopRecording
+//@   requires mp != nil && mp.wired() && mp.frameLoop.inv() && mp.isRecording == mp.recorder.open
+//@   modifies mp.framesWritten, mp.writeUntil, mp.isRecording, mp.triggered, mp.frameLoop.oldest, mp.frameLoop.mark, mp.recorder.open, mp.recorder.stops, mp.recorder.stopOK
+//@   ensures [C12] !mp.isRecording && !mp.recorder.open && mp.frameLoop.inv()
+//@   ensures old(mp.isRecording) ==> mp.framesWritten == 0 && mp.writeUntil == 0 && mp.triggered == 0 && mp.frameLoop.mark == mp.frameLoop.n() && mp.recorder.stops == old(mp.recorder.stops) + 1
+//@   ensures !old(mp.isRecording) ==> mp.framesWritten == old(mp.framesWritten) && mp.writeUntil == old(mp.writeUntil) && mp.triggered == old(mp.triggered) && mp.frameLoop.mark == old(mp.frameLoop.mark) && mp.recorder.stops == old(mp.recorder.stops) && result == nil
+
+//@ func (mp *MotionProcessor) process
+//@   requires mp != nil && mp.PInv() && frame != nil && frame == mp.frameLoop.frames[mp.frameLoop.currentIndex]
+//@   modifies mp.triggered, mp.isRecording, mp.framesWritten, mp.writeUntil, mp.run, mp.lastMotionFW
+//@   modifies mp.frameLoop.currentIndex, mp.frameLoop.bufferFull, mp.frameLoop.oldest, mp.frameLoop.base, mp.frameLoop.mark, elems(mp.frameLoop.orderedFrames)
+//@   modifies mp.motionDetector.*, any(uint16), any(float32), any(cptvframe.Telemetry), mp.log.*
+//@   modifies mp.recorder.open, mp.recorder.inFile, mp.recorder.wfault, mp.recorder.starts, mp.recorder.startOK, mp.recorder.bg, mp.recorder.thresh
+//@   modifies mp.recorder.next, mp.recorder.first, mp.recorder.writes, mp.recorder.stops, mp.recorder.stopOK
+//@   call Detect#1 bind m
+//@   call WriteFrame#1 ghost seq = mp.frameLoop.n()
+//@   call WriteFrame#1 assert [C01] $1 == mp.frameLoop.frames[mp.frameLoop.currentIndex] && mp.frameLoop.seq(mp.frameLoop.currentIndex) == seq
+//@   call WriteFrame#1 assert [C01] !mp.recorder.wfault ==> seq == mp.recorder.next || (mp.recorder.inFile == 0 && seq >= mp.recorder.next)
+//@   ghost_exit mp.run = (m && mp.recorder.stops == old(mp.recorder.stops)) ? old(mp.run) + 1 : 0
+//@   ghost_exit mp.lastMotionFW = mp.recorder.starts != old(mp.recorder.starts) ? 0 : (old(mp.isRecording) && m ? old(mp.framesWritten) : old(mp.lastMotionFW))
+//@   ensures mp.wired() && mp.frameLoop.n() == old(mp.frameLoop.n()) + 1
+//@   ensures [C01,C02,C12,C13] mp.recSeq()
+//@   ensures [C03] mp.recLen()
+//@   ensures [C04] mp.recRun()
+//@   ensures [C12,C17] mp.PInvC() && mp.PInvS()
+//@   ensures [C04] (mp.recorder.starts == old(mp.recorder.starts) + 1) == (!old(mp.isRecording) && m && old(mp.run) + 1 >= mp.triggerFrames && mp.window.activeNow && old(mp.recorder.canRec) && old(mp.recorder.startOK))
+//@   ensures [C04] mp.recorder.starts == old(mp.recorder.starts) || mp.recorder.starts == old(mp.recorder.starts) + 1
+//@   ensures [C04] mp.run == ((m && mp.recorder.stops == old(mp.recorder.stops)) ? old(mp.run) + 1 : 0)
+//@   ensures [C02] mp.recorder.starts != old(mp.recorder.starts) && !mp.recorder.wfault ==> mp.recorder.first == max(old(mp.recorder.next), old(mp.frameLoop.n()) - (mp.frameLoop.size - 1))
+//@   ensures [C01] !old(mp.isRecording) && mp.recorder.starts == old(mp.recorder.starts) ==> mp.recorder.writes == old(mp.recorder.writes) && mp.recorder.next == old(mp.recorder.next)
+//@   ensures [C01] old(mp.isRecording) ==> mp.recorder.writes == old(mp.recorder.writes) + 1
+//@   ensures [C01] mp.recorder.starts != old(mp.recorder.starts) && !mp.recorder.wfault ==> mp.recorder.writes == old(mp.recorder.writes) + mp.recorder.inFile && mp.recorder.inFile == old(mp.frameLoop.n()) - mp.recorder.first + 1
+//@   ensures [C03] (old(mp.isRecording) || mp.recorder.starts != old(mp.recorder.starts)) && !mp.recorder.wfault ==> ((mp.recorder.stops == old(mp.recorder.stops) + 1) == ((mp.recorder.starts != old(mp.recorder.starts) ? 1 : old(mp.framesWritten) + 1) >= min((mp.recorder.starts != old(mp.recorder.starts) ? 0 : (m ? old(mp.framesWritten) : old(mp.lastMotionFW))) + mp.minFrames, mp.maxFrames)))
+//@   ensures [C03] !(old(mp.isRecording) || mp.recorder.starts != old(mp.recorder.starts)) ==> mp.recorder.stops == old(mp.recorder.stops)
+//@   ensures [C03] mp.recorder.stops == old(mp.recorder.stops) || mp.recorder.stops == old(mp.recorder.stops) + 1
+
+//@ func (mp *MotionProcessor) stopConstantRecorder
+//@   requires mp != nil && mp.wired() && mp.PInvC()
+//@   modifies mp.crFrames, mp.constantRecorder.open, mp.constantRecorder.stops, mp.constantRecorder.stopOK
+//@   ensures [C12,C13] mp.PInvC() && (mp.constantRecording ==> !mp.constantRecorder.open)
+//@   ensures [C13] mp.constantRecording ==> mp.constantRecorder.writes == old(mp.constantRecorder.writes)
+
+//@ func (mp *MotionProcessor) processConstantRecorder
+//@   requires mp != nil && mp.wired() && mp.PInvC() && 0 <= mp.maxFrames && frame != nil
+//@   modifies mp.crFrames, mp.log.*
+//@   modifies mp.constantRecorder.open, mp.constantRecorder.inFile, mp.constantRecorder.wfault, mp.constantRecorder.starts, mp.constantRecorder.startOK, mp.constantRecorder.bg, mp.constantRecorder.thresh
+//@   modifies mp.constantRecorder.next, mp.constantRecorder.first, mp.constantRecorder.writes, mp.constantRecorder.stops, mp.constantRecorder.stopOK
+//@   ensures [C12,C17] mp.PInvC() && mp.log.inv()
+//@   ensures [C17] mp.constantRecording ==> mp.constantRecorder.starts == old(mp.constantRecorder.starts) + ((old(mp.crFrames) == 0 && old(mp.constantRecorder.startOK)) ? 1 : 0)
+//@   ensures [C17] mp.constantRecording ==> mp.constantRecorder.writes == old(mp.constantRecorder.writes) + ((old(mp.crFrames) > 0 || old(mp.constantRecorder.startOK)) ? 1 : 0)
+//@   ensures [C17] mp.constantRecording && mp.constantRecorder.writes != old(mp.constantRecorder.writes) ==> ((mp.constantRecorder.stops == old(mp.constantRecorder.stops) + 1) == (old(mp.crFrames) + 1 > mp.maxFrames)) && (mp.constantRecorder.stops != old(mp.constantRecorder.stops) ==> mp.constantRecorder.inFile == mp.maxFrames + 1)
+//@   ensures [C17] mp.constantRecording && mp.constantRecorder.writes == old(mp.constantRecorder.writes) ==> mp.constantRecorder.stops == old(mp.constantRecorder.stops)
+//@   ensures [C17] ncalls("WriteFrame") == 1 ==> callarg("WriteFrame", 1, 1) == frame
+//@   ensures [C17] !mp.constantRecording ==> ncalls("WriteFrame") == 0 && ncalls("StartRecording") == 0 && ncalls("StopRecording") == 0
+
+//@ func (mp *MotionProcessor) processSnapshot
+//@   requires mp != nil && mp.wired() && mp.PInvS() && frame != nil
+//@   modifies mp.StartSnapshot, mp.SnapshotRecording, mp.snapshotFrames, mp.log.*
+//@   modifies mp.snapshotRecorder.open, mp.snapshotRecorder.inFile, mp.snapshotRecorder.wfault, mp.snapshotRecorder.starts, mp.snapshotRecorder.startOK, mp.snapshotRecorder.bg, mp.snapshotRecorder.thresh
+//@   modifies mp.snapshotRecorder.next, mp.snapshotRecorder.first, mp.snapshotRecorder.writes, mp.snapshotRecorder.stops, mp.snapshotRecorder.stopOK
+//@   ensures [C12,C17] mp.PInvS() && mp.log.inv()
+//@   ensures [C17] old(mp.snapTidy()) && (mp.snapshotRecorder.stops != old(mp.snapshotRecorder.stops) ==> old(mp.snapshotRecorder.stopOK)) ==> mp.snapTidy()
+//@   ensures [C17] old(mp.snapTidy()) ==> mp.snapshotRecorder.starts == old(mp.snapshotRecorder.starts) + ((old(mp.StartSnapshot) && !old(mp.SnapshotRecording) && old(mp.snapshotRecorder.startOK)) ? 1 : 0)
+//@   ensures [C17] old(mp.snapTidy()) ==> mp.snapshotRecorder.writes == old(mp.snapshotRecorder.writes) + ((old(mp.SnapshotRecording) || (old(mp.StartSnapshot) && old(mp.snapshotRecorder.startOK))) ? 1 : 0)
+//@   ensures [C17] old(mp.snapTidy()) && mp.snapshotRecorder.stops != old(mp.snapshotRecorder.stops) ==> mp.snapshotRecorder.inFile == 21 && mp.snapshotRecorder.stops == old(mp.snapshotRecorder.stops) + 1
+//@   ensures [C17] old(mp.snapTidy()) && mp.snapshotRecorder.inFile == 21 && mp.snapshotRecorder.writes != old(mp.snapshotRecorder.writes) ==> mp.snapshotRecorder.stops == old(mp.snapshotRecorder.stops) + 1
+//@   ensures [C17] ncalls("WriteFrame") == 1 ==> callarg("WriteFrame", 1, 1) == frame
+//@   ensures [C17] !old(mp.StartSnapshot) && !old(mp.SnapshotRecording) ==> ncalls("WriteFrame") == 0 && ncalls("StartRecording") == 0 && ncalls("StopRecording") == 0
